@@ -898,8 +898,10 @@ outer:
 				if rn == '{' {
 					buf.Reset()
 					for {
-						rn, _, _ := r.ReadRune()
-						if rn == '}' {
+						rn, _, err := r.ReadRune()
+						if err != nil || rn == '}' {
+							// a class that ends before the closing brace is
+							// reported by the grammar, do not loop forever
 							break
 						}
 						buf.WriteRune(rn)
